@@ -95,6 +95,13 @@ theorem precedence_precommand (spec : List Opt) (ov : List (Str × Val)) (ini : 
     · intro k hk
       rw [applyOptVals_vals ov hov p k, alookup_not_mem k ov hk]
 
+/-- **config layers** (`extra_config`, then `pyproject.toml`, then `doit.cfg`; GLOBAL then the command's section): the
+    later layer wins for every KEY it sets and every key that only an earlier layer sets is kept -/
+theorem config_layers_per_key (g c : List (Str × CfgVal)) (k : Str) :
+    alookup k (mergeCfg g c) = match alookup k c with
+      | some v => some v
+      | none => alookup k g := mergeCfg_lookup g c k
+
 /-- `WF` gives the hypothesis the theorems above use -/
 theorem wf_names (spec : List Opt) (h : WF spec = true) : (spec.map (·.name)).Nodup := by
   simp only [WF, Bool.and_eq_true, decide_eq_true_eq] at h
